@@ -88,10 +88,10 @@ theorem C04_truncate_partial (X : Ctx) (s : St) (es : List Elem) (n : Nat) (h : 
       (r ≠ .error .doublePanic → ownEvents s'.sys.tr = ownEvents s.sys.tr ++ dropEvents X (es.drop n)) ∧
       (r = .error .doublePanic → ∃ pre, pre <+: es.drop n ∧ ownEvents s'.sys.tr = ownEvents s.sys.tr ++ dropEvents X pre) := by
   have hL : (hsOf s.v s.sys.allocIdx).L = es.length := h.len_eq
-  have hrun := truncate_pre_run X.env n (hsOf s.v s.sys.allocIdx)
-  rw [hL] at hrun
+  obtain ⟨hrun0, hrun1⟩ := truncate_pre_run X.env n (hsOf s.v s.sys.allocIdx)
+  rw [hL] at hrun0 hrun1
   by_cases hge : n ≥ es.length
-  · rw [if_pos hge] at hrun
+  · have hrun := hrun0 hge
     have h1 : VM.lift X (truncate_pre X.env n) s = (.ok (.ret 0), s) := lift_read X _ s _ hrun
     have hnil : es.drop n = [] := List.drop_eq_nil_of_le hge
     refine ⟨_, s, ?_, .ok, by rw [List.take_of_length_le hge]; exact h, rfl, rfl, fun _ => by simp [hnil, dropEvents],
@@ -107,23 +107,19 @@ theorem C04_truncate_partial (X : Ctx) (s : St) (es : List Elem) (n : Nat) (h : 
     have hal : b.lay.align = s.v.align := (make_layout_honest _ _ _ _ hl).2.1
     have habs' := h.shorten n (by omega) hd
     have hgd : (hsOf s.v s.sys.allocIdx).isDefault = false := hd
-    rw [if_neg hge, if_neg (by rw [hgd]; simp)] at hrun
     have hacts : (hsOf s.v s.sys.allocIdx).acts ++ [Action.setLen n] = [.setLen n] := rfl
-    rw [hacts] at hrun
-    have h1 := lift_len_write' X (truncate_pre X.env n) s n _ hrun
-    cases hnd : X.c.needsDrop with
-    | false =>
-      have hnd' : X.env.c.needsDrop = false := hnd
-      rw [hnd'] at h1
+    rcases hrun1 hge hgd with hrun | ⟨hnd', hrun⟩
+    case inr =>
+      have hnd : X.c.needsDrop = false := hnd'
+      rw [hacts] at hrun
+      have h1 := lift_len_write' X (truncate_pre X.env n) s n _ hrun
       refine ⟨_, { s with v := { s.v with len := n } }, ?_, .ok, habs', rfl, rfl, fun _ => by simp [dropEvents, hnd],
         fun hx => by simp at hx⟩
       unfold Vec.truncate
-      simp only [VM.bind_run, h1, VM.pure_run]
-      rfl
-    | true =>
-      have hnd' : X.env.c.needsDrop = true := hnd
-      rw [hnd'] at h1
-      simp only [if_true] at h1
+      simp only [VM.bind_run, h1, VM.pure_run] <;> rfl
+    case inl =>
+      rw [hacts] at hrun
+      have h1 := lift_len_write' X (truncate_pre X.env n) s n _ hrun
       have h2 : VM.lift X (data X.env) { s with v := { s.v with len := n } } =
           (.ok (.at (dataOff s.v.align)), { s with v := { s.v with len := n } }) :=
         lift_read X _ _ _ (data_run X.env _ hd b.lay s.v.cap hl)
